@@ -261,7 +261,8 @@ ri_status ri_call (ri_ctx *ri, MIR_item_t func_item, const ri_val *args, int nar
       if (in->ops[k].mode == MIR_OP_REG && in->ops[k].u.reg > nvars) nvars = in->ops[k].u.reg;
       if (in->ops[k].mode == MIR_OP_MEM) { if (in->ops[k].u.mem.base > nvars) nvars = in->ops[k].u.mem.base; if (in->ops[k].u.mem.index > nvars) nvars = in->ops[k].u.mem.index; }
     }
-  if (f->global_vars != NULL && VARR_LENGTH (MIR_var_t, f->global_vars) != 0) { ri->depth--; return stop (ri, RI_UNSUPPORTED, "global register variables"); }
+  /* variables tied to hard registers are ordinary registers here; their initial value (whatever the hard register holds) reads as 0, so a program is only
+     comparable if it does not let that value reach a result (the families save and restore it) */
   fr.func = f; fr.nregs = (uint32_t) nvars + 1; fr.regs = calloc (fr.nregs + 1, sizeof (ri_val)); fr.addr_taken = calloc (fr.nregs + 1, 1); fr.arena_base = ri->arena_top;
   /* registers are numbered 1..nvars in declaration order (arguments first) */
   for (int i = 0; i < nargs; i++) {
